@@ -68,4 +68,33 @@ def runW : Prog α → DecSt → Except Err (α × DecSt)
       | [] => .error .end_
       | b :: _ => runW (k b) s'
 
+/-- the state `read_to_buffer()` leaves behind, whether it returns or throws: when it has to refill, `m_p`/`m_end` are set from
+    the read before the "nothing read" check -/
+def afterRefill (s : DecSt) : DecSt :=
+  if s.win = [] then
+    if s.inp.eof then s
+    else
+      let (bs, inp') := s.inp.read bufferSize
+      { win := bs, inp := inp' }
+  else s
+
+/-- like `runW`, but the state is kept when the program throws (what the next call on the same decoder object starts from) -/
+def runWS : Prog α → DecSt → Except Err α × DecSt
+  | .pure a, s => (.ok a, s)
+  | .throw e, s => (.error e, s)
+  | .next k, s =>
+    match readToBuffer s with
+    | .error e => (.error e, afterRefill s)
+    | .ok s' =>
+      match s'.win with
+      | [] => (.error .end_, s')
+      | b :: w => runWS (k b) { s' with win := w }
+  | .peek k, s =>
+    match readToBuffer s with
+    | .error e => (.error e, afterRefill s)
+    | .ok s' =>
+      match s'.win with
+      | [] => (.error .end_, s')
+      | b :: _ => runWS (k b) s'
+
 end CdnsVerif.Model.Window
